@@ -13,6 +13,7 @@ import random
 
 from .. import tlc
 from ..alpha import alpha, exc_names
+from .. import looptrace
 from ..core import Check, MachineryError
 
 POL = ["throw", "exclude", "preserve"]
@@ -99,6 +100,7 @@ def container_cases(rng, thorough):
             for pi, pk, pv in policy_combos(rng, thorough):
                 opts = Options(invalid_items=pi, invalid_keys=pk, invalid_values=pv)
                 r = result_of(lambda: utype.type_transform(x, T, options=opts), shape)
+                r["steps"] = looptrace.observe_steps(lambda: utype.type_transform(x, T, options=opts), alpha, None, names=("_parse_seq_args", "_parse_map_args"))
                 r["filtered"] = result_of(lambda: utype.type_transform(filtered, T), shape)
                 c = {"kind": name, "shape": shape, "indexable": indexable, "pk": "throw", "pv": pi, "entries": ents,
                      "anyexclude": pi == "exclude", "pols": [pi, pk, pv]}
@@ -134,6 +136,7 @@ def map_cases(rng, thorough):
         for pi, pk, pv in combos:
             opts = Options(invalid_items=pi, invalid_keys=pk, invalid_values=pv)
             r = result_of(lambda: utype.type_transform(x, T, options=opts), "map")
+            r["steps"] = looptrace.observe_steps(lambda: utype.type_transform(x, T, options=opts), alpha, None, names=("_parse_seq_args", "_parse_map_args"))
             r["filtered"] = result_of(lambda: utype.type_transform(filtered, T), "map")
             c = {"kind": "dict", "shape": "map", "indexable": True, "pk": pk, "pv": pv, "entries": ents,
                  "anyexclude": pk == "exclude" or pv == "exclude", "pols": [pi, pk, pv]}
@@ -231,7 +234,7 @@ def main():
     missing = [w for w in ("W_Excluded", "W_Preserved", "W_Raised") if "Invariant %s is violated" % w not in wit.output]
     if missing:
         raise MachineryError("vacuity: %s unreachable in MC_ArgsLoops" % missing)
-    records, n = [], 0
+    records, n, step_recs = [], 0, []
     for gen_ in (container_cases, map_cases, field_cases, extra_cases):
         for c, r, rp in gen_(rng, thorough):
             n += 1
@@ -239,8 +242,11 @@ def main():
                 c["entries"] = [dict(e, pol=c["pv"], kpol=c["pk"]) for e in c["entries"]]
             else:
                 c["entries"] = [dict(e) for e in c["entries"]]
+            steps = r.pop("steps", None)
             recs = {"id": "c11-%d" % n, "c": c, "r": r, "repr": rp}
             records.append(recs)
+            if steps:
+                step_recs.append({"id": "c11-%d" % n, "c": c, "steps": steps})
     fields = [x for x in records if x["c"]["shape"] == "fields"]
     others = [x for x in records if x["c"]["shape"] != "fields"]
     byid = {x["id"]: x for x in records}
@@ -251,6 +257,16 @@ def main():
     if r1.distinct != len(others) or r2.distinct != len(fields):
         raise MachineryError("trace acceptance: TLC visited %d+%d states, expected %d+%d" % (r1.distinct, r2.distinct, len(others), len(fields)))
     ck.judged(len(records))
+    sres = tlc.judge("Trace_ArgsSteps", "Trace_ArgsSteps.cfg", step_recs, workers=8)
+    nsnap = sum(len(x["steps"]) for x in step_recs)
+    if sres.distinct != nsnap:
+        raise MachineryError("trace acceptance (element steps): TLC visited %d states, expected %d" % (sres.distinct, nsnap))
+    ck.mc(sres, "Trace element steps")
+    ck.count("element_loop_snapshots_validated_against_ArgsLoops_actions", nsnap)
+    if sres.tagged("DIV"):
+        ck.count("element_step_divergences", len(sres.tagged("DIV")))
+        t0 = sres.tagged("DIV")[0]
+        ck.note("divergence at step %s: ArgsLoops differs from the element loop on %s" % (t0[2], byid[t0[1]]["repr"]))
     for x in records:
         c = x["c"]
         ck.keys.add("%s|%s|%s|%s" % (c["kind"], ",".join(c["pols"]), "".join("B" if (e["koff"] or e["voff"]) else "g" for e in c["entries"]), x["r"]["ok"]))
